@@ -473,6 +473,12 @@ canon::CLib extract(const Library& lib, const ExtractOptions& opt) {
     c.precision = lib.precision;
     Gridder G{lib.unit / lib.precision};
     if (mode == canon::OAS) c.props.push_back(canon::props_str(props_to_model(lib.properties), canon::OAS));
+    std::set<std::string> own_names;
+    std::set<const Cell*> own_cells;
+    for (uint64_t ci = 0; ci < lib.cell_array.count; ci++) {
+        own_cells.insert(lib.cell_array[ci]);
+        if (lib.cell_array[ci]->name) own_names.insert(lib.cell_array[ci]->name);
+    }
     for (uint64_t ci = 0; ci < lib.cell_array.count; ci++) {
         const Cell* cell = lib.cell_array[ci];
         canon::CCell cc;
@@ -567,6 +573,13 @@ canon::CLib extract(const Library& lib, const ExtractOptions& opt) {
                     target = r->rawcell && r->rawcell->name ? r->rawcell->name : "";
                     break;
                 case ReferenceType::Name: target = r->name ? r->name : ""; break;
+            }
+            // a loaded reference is attached to its cell exactly when the library has a cell of that name
+            if (r->type == ReferenceType::Name) {
+                if (own_names.count(target))
+                    cc.refs.push_back("UNRESOLVED reference to " + target + ", a cell of the loaded library");
+            } else if (r->type == ReferenceType::Cell) {
+                if (!own_cells.count(r->cell)) cc.refs.push_back("FOREIGN cell attached to the reference to " + target);
             }
             std::string props = canon::props_str(props_to_model(r->properties), mode);
             for (auto& o : rep_offsets(r->repetition)) {
